@@ -47,6 +47,34 @@ var (
 	contentTypes = []string{"application/json", "application/vnd.kubernetes.protobuf", "text/plain; charset=utf-8", "application/json;stream=watch", "application/octet-stream", "text/html"}
 )
 
+// Headers by which a proxy in front of the gateway (or a client pretending to be one) names "the real client". They are
+// end-to-end headers like any other; what the gateway appends to X-Forwarded-For is the address of ITS peer, whatever they claim.
+var (
+	clientAddrHeaders = []string{"X-Real-Ip", "X-Real-Ip", "True-Client-Ip", "X-Client-Ip", "Cf-Connecting-Ip", "X-Original-Forwarded-For", "X-Cluster-Client-Ip", "Fastly-Client-Ip"}
+	clientAddrValues  = []string{"203.0.113.7", "198.51.100.2", "10.0.0.1", "2001:db8::1", "::1", "::ffff:192.0.2.9", "[2001:db8::2]", "[2001:db8::2]:4711", "203.0.113.7:55123",
+		"203.0.113.7, 198.51.100.2", "not-an-address", "", "999.1.1.1", "0.0.0.0", "localhost", "fe80::1%eth0", "127.0.0.1"}
+	forwardedValues = []string{"for=192.0.2.60;proto=http;by=203.0.113.43", `for="[2001:db8:cafe::17]:4711"`, "for=192.0.2.43, for=198.51.100.17", "for=unknown", "For=_hidden;Host=example.com", "garbage"}
+)
+
+// proxyHeaders adds 1-4 of them.
+func proxyHeaders(g *vkit.Rand, hs []bed.RawHeader) []bed.RawHeader {
+	for i, n := 0, g.Range(1, 4); i < n; i++ {
+		switch k := g.Intn(10); {
+		case k < 6:
+			hs = append(hs, bed.RawHeader{Name: wireCase(g, g.Pick(clientAddrHeaders)), Value: g.Pick(clientAddrValues)})
+		case k < 7:
+			hs = append(hs, bed.RawHeader{Name: wireCase(g, "Forwarded"), Value: g.Pick(forwardedValues)})
+		case k < 8:
+			hs = append(hs, bed.RawHeader{Name: wireCase(g, "X-Forwarded-Host"), Value: g.Pick([]string{"api.example.com", "api.example.com:6443", "[2001:db8::5]:443", "10.0.0.9"})})
+		case k < 9:
+			hs = append(hs, bed.RawHeader{Name: wireCase(g, "X-Forwarded-Proto"), Value: g.Pick([]string{"https", "http", "wss", "HTTPS"})})
+		default:
+			hs = append(hs, bed.RawHeader{Name: wireCase(g, "X-Forwarded-Port"), Value: g.Pick([]string{"443", "6443", "0", "65536"})})
+		}
+	}
+	return hs
+}
+
 func wireCase(g *vkit.Rand, name string) string {
 	switch g.Intn(5) {
 	case 0, 1:
@@ -153,19 +181,20 @@ type Exchange struct {
 	Reply     *bed.RawReply   `json:"upstreamReply,omitempty"`
 	ReplyBody int             `json:"upstreamBodyLen"`
 	// PlainBody is the representation before the stub compressed it (gzip cases), else nil.
-	PlainBody   []byte `json:"-"`
-	Gzip        bool   `json:"gzipReply,omitempty"`
-	ClientAE    bool   `json:"clientSentAcceptEncoding"`
-	HostileQ    string `json:"hostileQuery,omitempty"`
-	Upgrade     bool   `json:"upgrade,omitempty"`
-	Boundary    string `json:"boundary,omitempty"`
-	Racing      string `json:"racingConfigEvent,omitempty"`
-	Via         string `json:"via,omitempty"`
-	Route       string `json:"route,omitempty"`
-	EventsPath  bool   `json:"eventsPath,omitempty"`
-	KnownPath   bool   `json:"templatePath,omitempty"`
-	connNamed   map[string]bool
-	clientToken string
+	PlainBody    []byte `json:"-"`
+	Gzip         bool   `json:"gzipReply,omitempty"`
+	ClientAE     bool   `json:"clientSentAcceptEncoding"`
+	HostileQ     string `json:"hostileQuery,omitempty"`
+	Upgrade      bool   `json:"upgrade,omitempty"`
+	Boundary     string `json:"boundary,omitempty"`
+	ProxyHeaders bool   `json:"clientAddressHeaders,omitempty"`
+	Racing       string `json:"racingConfigEvent,omitempty"`
+	Via          string `json:"via,omitempty"`
+	Route        string `json:"route,omitempty"`
+	EventsPath   bool   `json:"eventsPath,omitempty"`
+	KnownPath    bool   `json:"templatePath,omitempty"`
+	connNamed    map[string]bool
+	clientToken  string
 }
 
 // genRequest builds the client's request (without credential / impersonation, which the class adds).
@@ -228,10 +257,17 @@ func genRequest(g *vkit.Rand, id, host string, big bool, path string) *Exchange 
 		hs = append(hs, bed.RawHeader{Name: wireCase(g, "Accept-Encoding"), Value: g.Pick([]string{"gzip", "identity", "gzip, deflate, br", "deflate"})})
 	}
 	if g.Chance(0.25) {
-		hs = append(hs, bed.RawHeader{Name: wireCase(g, "X-Forwarded-For"), Value: g.Pick([]string{"10.1.2.3", "10.1.2.3, 172.16.0.9", "2001:db8::1", "unknown"})})
-		if g.Chance(0.25) {
-			hs = append(hs, bed.RawHeader{Name: "X-Forwarded-For", Value: "192.0.2.7"})
+		hs = append(hs, bed.RawHeader{Name: wireCase(g, "X-Forwarded-For"), Value: g.Pick([]string{"10.1.2.3", "10.1.2.3, 172.16.0.9", "2001:db8::1", "unknown", "", "203.0.113.7,198.51.100.2", "[2001:db8::1]:80", "garbage value"})})
+		if g.Chance(0.3) { // a second (and third) X-Forwarded-For line
+			hs = append(hs, bed.RawHeader{Name: wireCase(g, "X-Forwarded-For"), Value: g.Pick([]string{"192.0.2.7", "2001:db8::9", "192.0.2.7, 192.0.2.8"})})
+			if g.Chance(0.3) {
+				hs = append(hs, bed.RawHeader{Name: "X-Forwarded-For", Value: "198.51.100.77"})
+			}
 		}
+	}
+	if g.Chance(0.25) {
+		x.ProxyHeaders = true
+		hs = proxyHeaders(g, hs)
 	}
 	if g.Chance(0.15) {
 		hs = append(hs, bed.RawHeader{Name: wireCase(g, "Te"), Value: g.Pick([]string{"trailers", "trailers, deflate", "gzip", "Trailers"})})
@@ -412,7 +448,11 @@ func genUpgrade(g *vkit.Rand, id, host string) *Exchange {
 	}
 	hs = append(hs, bed.RawHeader{Name: "X-Stream-Protocol-Version", Value: "v4.channel.k8s.io"})
 	if g.Chance(0.3) {
-		hs = append(hs, bed.RawHeader{Name: "X-Forwarded-For", Value: "10.9.8.7"})
+		hs = append(hs, bed.RawHeader{Name: "X-Forwarded-For", Value: g.Pick([]string{"10.9.8.7", "10.9.8.7, 2001:db8::1", "unknown"})})
+	}
+	if g.Chance(0.3) {
+		x.ProxyHeaders = true
+		hs = proxyHeaders(g, hs)
 	}
 	if g.Chance(0.3) {
 		hs = append(hs, bed.RawHeader{Name: "User-Agent", Value: "kubectl/v1.18.10"})
